@@ -698,7 +698,8 @@ func (s *SpecValidator) validateParameters() *Result {
 			// Check parameters names uniqueness for operation
 			// TODO: should be done after param expansion
 			res.Merge(s.checkUniqueParams(path, method, op))
-			if paths := s.spec.Spec().Paths; paths != nil {
+			if s.expanded != nil && s.expanded.Spec().Paths != nil { // the expanded copy: resolving must not touch the caller's document
+				paths := s.expanded.Spec().Paths
 				if pathItem, ok := paths.Paths[path]; ok && len(pathItem.Parameters) > 0 {
 					// the parameters shared at the path item level form a list of their own,
 					// which must not contain duplicates either
